@@ -757,6 +757,55 @@ def run_scale(rep):
             rep.note(f"N-scale {label}: {type(e).__name__}: {e}")
 
 
+def _lowprec_one(case):
+    """the same configuration with float32 / complex64 INPUTS: reverse- and forward-mode results agree with the float64 run to single precision"""
+    warnings.simplefilter("ignore")
+    import autograd.numpy as anp
+    from autograd.core import make_jvp, make_vjp
+    label, src, spec, argnums = case
+    out = []
+    if label.startswith("scipy:") or "astype" in label or "float32" in src or "float16" in src:
+        return out
+    try:
+        f0 = eval(src)
+        xs64 = [_mk(shp, kind, 3 + 2 * i) for i, (shp, kind) in enumerate(spec)]
+        low = lambda v: (onp.asarray(v).astype(onp.complex64 if onp.iscomplexobj(v) else onp.float32) if onp.ndim(v) else (onp.complex64(v) if onp.iscomplexobj(v) else onp.float32(v)))
+        xs32 = [low(v) for v in xs64]
+        for a in argnums:
+            f64 = lambda z, a=a: f0(anp, *[z if i == a else v for i, v in enumerate(xs64)])
+            f32 = lambda z, a=a: f0(anp, *[z if i == a else v for i, v in enumerate(xs32)])
+            try:
+                v64, y64 = make_vjp(f64, xs64[a])
+                v32, y32 = make_vjp(f32, xs32[a])
+                if isinstance(y64, (tuple, list)) or onp.asarray(y64).dtype == object:
+                    continue
+                g = _mk(onp.shape(y64), "C" if onp.iscomplexobj(y64) else "R", 11)
+                r64 = onp.asarray(v64(g))
+                r32 = onp.asarray(v32(low(g) if onp.asarray(y32).dtype.itemsize <= 8 and onp.asarray(y32).dtype.kind in "fc" and onp.asarray(y32).dtype != onp.asarray(y64).dtype else g))
+            except Exception:
+                continue       # a loud failure in either precision is allowed
+            sc = 1 + float(onp.max(onp.abs(r64))) if r64.size else 1.0
+            ok = r32.shape == r64.shape and (r64.size == 0 or float(onp.max(onp.abs(r32.astype(r64.dtype) - r64))) <= 5e-3 * sc) and bool(onp.iscomplexobj(r32)) == bool(onp.iscomplexobj(r64))
+            out.append((f"{label}|arg{a}", "N-lowprec", ok, f"single-precision inputs: gradient {r32.ravel()[:4].tolist()} ({r32.dtype}, shape {r32.shape}); double-precision run gives {r64.ravel()[:4].tolist()} (shape {r64.shape})"))
+    except Exception as e:
+        pass
+    return out
+
+
+def run_lowprec(rep, tier):
+    """N-lowprec: every numeric configuration repeated with float32 / complex64 inputs (no finite differences: the float64 run of the same rule is the reference, which
+    N-vjp checks separately).  Catches what only shows for non-default precisions: caches keyed without the dtype, casts to float64, lost imaginary parts in complex64."""
+    cases = [c for c in CASES if not c[0].startswith("scipy:")]
+    rep.bound(f"N-lowprec: {len(cases)} configurations with single-precision inputs, tolerance 5e-3 relative to the double-precision gradient")
+    with mp.get_context("fork").Pool(8) as pool:
+        results = pool.map(_lowprec_one, cases)
+    for res in results:
+        for label, cl, ok, detail in res:
+            rep.bounded_case((label, cl))
+            if not ok:
+                rep.violation("NUM:N-lowprec", label, f"{label}: {detail}", replay=dict(module="contracts.rules_numeric", lowprec=label.split("|")[0]), witness=True)
+
+
 def run_astype(rep):
     """x.astype(<other precision / kind>): the gradient comes back in the ARGUMENT's dtype (C05: same dtype for default-precision arguments) with the exact
     values of the (linear) cast; checked without finite differences (float32 steps are too coarse for them)."""
